@@ -162,6 +162,7 @@ func c10(c *Ctx) {
 	r.Rule("D1", "nondeterminism-source inventory in the builder packages and encoder: every range over a map has an order-insensitive body (see text); no go/select; no call into time.Now/…, math/rand, crypto/rand, os.Getpid/Getenv/…")
 	r.Rule("D1'", "dependency assertion: go-codec-dagpb's encoder stable-sorts the links by name before writing them")
 	r.Rule("D2", "loops over caller-supplied entry slices in exported builders have only order-insensitive effects (sums, links into a dag-pb list, map inserts keyed by a function of the entry, pure calls)")
+	r.Rule("D4", "a build either yields the whole result or an error: in the builder packages the error of every call to a repository function and of every call through which the caller's input or the environment can fail (io, os, the chunker, hasher look-up) reaches the enclosing function's error result on every path — io.EOF compared explicitly counts as handled. A dropped error makes the output depend on where the failure fell: on the order of the entries, on how the reader fragments its data, or on map iteration order")
 	r.Rule("D3", "the io.Reader parameter of the file builder is used only as the argument of the chunker constructor; boxo's size and buzhash splitters obtain bytes only through io.ReadFull")
 
 	nmap, nslice, nfun := 0, 0, 0
@@ -301,6 +302,7 @@ func c10(c *Ctx) {
 
 	c.assertDagpbSort()
 	c.checkReaderFlow()
+	c.checkBuilderErrors()
 }
 
 // orderInsensitive classifies the effects of a range loop (see rule text).
@@ -1111,4 +1113,66 @@ func (c *Ctx) valueConsumedOrderInsensitivelyAfter(fn *ssa.Function, v ssa.Value
 		return false, fmt.Sprintf("it is used by %T", ref)
 	}
 	return uses > 0, "it is not consumed"
+}
+
+// checkBuilderErrors implements D4.
+func (c *Ctx) checkBuilderErrors() {
+	r := c.R
+	n := 0
+	for _, fn := range c.G.Funcs() {
+		rel, ok := c.P.PkgOf(fn)
+		if !ok || !core.BuilderPkgs[rel] || fn.Synthetic != "" || core.ErrResultIndex(fn.Signature) < 0 {
+			continue
+		}
+		ord := map[string]int{}
+		for _, ci := range core.CallsIn(fn) {
+			call, ok := ci.(*ssa.Call)
+			if !ok || core.ErrResultIndex(call.Call.Signature()) < 0 {
+				continue
+			}
+			// scope: repository callees, and calls into the packages through which the caller's input or the environment
+			// can fail at run time (readers, the chunker, the file system, hasher look-up). In-memory assembler calls of
+			// go-ipld-prime / go-codec-dagpb and hash.Hash writes cannot fail on well-typed values and are judged by C16
+			// where they carry a store.
+			inScope := false
+			if f := call.Call.StaticCallee(); f != nil {
+				if _, isRepo := c.P.PkgOf(f); isRepo {
+					inScope = true
+				} else if f.Pkg != nil {
+					switch pp := f.Pkg.Pkg.Path(); {
+					case pp == "os" || pp == "io" || pp == "io/fs" || pp == "bufio" || strings.HasSuffix(pp, "/chunker") || strings.HasSuffix(pp, "go-multihash"):
+						inScope = true
+					}
+				}
+			} else if call.Call.IsInvoke() {
+				if nn, ok := types.Unalias(call.Call.Value.Type()).(*types.Named); ok && nn.Obj().Pkg() != nil {
+					switch pp := nn.Obj().Pkg().Path(); {
+					case pp == "io" || pp == "io/fs" || strings.HasSuffix(pp, "/chunker"):
+						inScope = true
+					}
+					if c.P.IsRepoPkg(nn.Obj().Pkg()) {
+						inScope = true
+					}
+				}
+			}
+			if !inScope {
+				continue
+			}
+			name := core.CalleeName(call)
+			ord[name]++
+			n++
+			key := fmt.Sprintf("%s/err:%s#%d", core.FuncName(fn), shorten(strings.ReplaceAll(name, core.Module+"/", "")), ord[name])
+			probs, _, complete := core.CheckErrPropagatedOpt(fn, call, true)
+			if !complete {
+				r.Undecided("D4", key, c.P.Pos(call.Pos()), "path enumeration exceeded its bound")
+				continue
+			}
+			var ss []string
+			for _, p := range probs {
+				ss = append(ss, fmt.Sprintf("%s [return at %s]", p.What, c.P.Pos(p.Pos)))
+			}
+			r.Check(len(probs) == 0, "D4", key, c.P.Pos(call.Pos()), "error propagated", "an error is dropped: the build goes on with partial state and its result depends on where the failure fell: "+uniqJoin(ss))
+		}
+	}
+	r.Floor("D4", n, 15)
 }
